@@ -111,6 +111,10 @@ type enc struct {
 	protCache      map[*ssa.Alloc]bool
 	nObj           int
 	volatileLocals map[*ssa.Alloc]bool
+	siteOrd        map[ssa.Instruction]int
+	projs          map[string]*projInfo
+	projOrder      []*projInfo
+	elemAddr       map[string]bool
 }
 
 type retRec struct {
@@ -119,7 +123,26 @@ type retRec struct {
 	vals  []string
 }
 
-func (p *Program) encodeFunc(fn *ssa.Function) (vc *FuncVC) {
+func (p *Program) encodeFunc(fn *ssa.Function) *FuncVC {
+	vc, gcs, prs := p.encodeFuncPass(fn, nil, nil)
+	if (len(gcs) > 0 || len(prs) > 0) && len(vc.Errors) == 0 {
+		// second pass: ghost cells bound at call sites and heap projections used by pure callees are
+		// now known from the start (loop heads havoc the former, every heap update relates the latter)
+		vc, _, _ = p.encodeFuncPass(fn, gcs, prs)
+	}
+	return vc
+}
+
+func sortedBlocks(m map[*ssa.BasicBlock]bool) []*ssa.BasicBlock {
+	var bs []*ssa.BasicBlock
+	for b := range m {
+		bs = append(bs, b)
+	}
+	sort.Slice(bs, func(i, j int) bool { return bs[i].Index < bs[j].Index })
+	return bs
+}
+
+func (p *Program) encodeFuncPass(fn *ssa.Function, pre map[string]*ghostCell, preProjs []*projInfo) (vc *FuncVC, gcs map[string]*ghostCell, prs []*projInfo) {
 	e := &enc{p: p, fn: fn, qn: p.qname(fn), c: p.contracts[p.qname(fn)],
 		vals: map[ssa.Value][]string{}, scalar: map[*ssa.Alloc]bool{}, allocRef: map[*ssa.Alloc]string{},
 		declared: map[string]bool{}, asserted: map[string]bool{},
@@ -130,14 +153,28 @@ func (p *Program) encodeFunc(fn *ssa.Function) (vc *FuncVC) {
 		cellSortOf: map[string]string{}, ghostCells: map[string]*ghostCell{}, protCache: map[*ssa.Alloc]bool{}, volatileLocals: map[*ssa.Alloc]bool{},
 	}
 	e.out = &FuncVC{Func: e.qn, Notes: map[string]bool{}}
+	e.projs, e.elemAddr = map[string]*projInfo{}, map[string]bool{}
+	for _, pr := range preProjs {
+		e.projs[pr.fp.key()] = pr
+		e.projOrder = append(e.projOrder, pr)
+	}
+	for k, gc := range pre {
+		e.ghostCells[k] = gc
+		e.cellSortOf[gc.cell] = gc.sort
+		if strings.HasSuffix(gc.cell, "_set") {
+			e.declare(gc.cell+"_0", "Bool")
+			e.assertOnce("(not " + gc.cell + "_0)")
+		}
+	}
 	defer func() {
 		if r := recover(); r != nil {
 			e.out.Errors = append(e.out.Errors, fmt.Sprintf("encoder: %v", r))
 			vc = e.out
+			gcs, prs = nil, nil
 		}
 	}()
 	e.run()
-	return e.out
+	return e.out, e.ghostCells, e.projOrder
 }
 
 // ---- small helpers -----------------------------------------------------------------------
@@ -207,18 +244,21 @@ func (e *enc) posOf(pos token.Pos) string {
 
 // oblige records an obligation; afterwards the goal is assumed on the current path.
 func (e *enc) oblige(class, key, goal string, pos token.Pos, text string) {
-	if goal == "true" {
-		return
+	implicit := class == "bounds" || class == "nil" || class == "div0" || class == "makeslice" || class == "overflow" || class == "typeassert" || class == "nilmap"
+	if goal == "true" && implicit {
+		return // contract-derived obligations are kept even when they fold to true: a change may unfold them
 	}
 	// skip re-checking an identical goal already checked in a dominating block
 	ck := class + "|" + goal
-	for _, b := range e.checked[ck] {
-		if e.cur != nil && (b == e.cur || b.Dominates(e.cur)) {
-			return
+	if implicit {
+		for _, b := range e.checked[ck] {
+			if e.cur != nil && (b == e.cur || b.Dominates(e.cur)) {
+				return
+			}
 		}
-	}
-	if e.cur != nil {
-		e.checked[ck] = append(e.checked[ck], e.cur)
+		if e.cur != nil {
+			e.checked[ck] = append(e.checked[ck], e.cur)
+		}
 	}
 	base := class + ":" + key
 	e.oblSeen[base]++
@@ -351,6 +391,22 @@ func isLocalTerm(addr string) bool {
 	}
 }
 
+// localRootID: the allocation number k of a term rooted at (alloc (- k)).
+func localRootID(addr string) int {
+	i := strings.Index(addr, "(alloc (- ")
+	if i < 0 {
+		return 0
+	}
+	n := 0
+	for _, c := range addr[i+10:] {
+		if c < '0' || c > '9' {
+			break
+		}
+		n = n*10 + int(c-'0')
+	}
+	return n
+}
+
 func memCell(sort, addr string) string {
 	if isLocalTerm(addr) {
 		return "LMem_" + sortKey(sort)
@@ -479,9 +535,15 @@ func (e *enc) storeValue(st *State, addr, val string, t types.Type) {
 				for s := range ms.elems {
 					sorts[s] = true
 				}
+				rootID := localRootID(addr)
 				for _, s := range sortedKeys(sorts) {
 					if isHeapScalar(s) {
-						st.cells["LMem_"+sortKey(s)] = e.fresh("LMem_"+sortKey(s)+"_arr", "(Array Ref "+s+")")
+						c := "LMem_" + sortKey(s)
+						old := e.get(st, c, "(Array Ref "+s+")")
+						nw := e.fresh(c+"_arr", "(Array Ref "+s+")")
+						// only cells of this very local object are forgotten
+						e.assert(fmt.Sprintf("(forall ((r Ref)) (! (or (= (select %s r) (select %s r)) (= (root r) (- %d))) :pattern ((select %s r))))", nw, old, rootID, nw))
+						st.cells[c] = nw
 					}
 				}
 				return
@@ -493,11 +555,27 @@ func (e *enc) storeValue(st *State, addr, val string, t types.Type) {
 		nw := e.fresh("Mem_"+sortKey(es), "(Array Ref "+es+")")
 		e.assert(fmt.Sprintf("(forall ((r Ref)) (! (= (select %s r) (ite (and ((_ is elem) r) (= (ebase r) %s) (<= 0 (eidx r)) (< (eidx r) %d)) (select %s (eidx r)) (select %s r))) :pattern ((select %s r))))",
 			nw, addr, u.Len(), val, old, nw))
-		st.cells[memCell(es, addr)] = nw
+		if isLocalTerm(addr) {
+			st.cells[memCell(es, addr)] = nw
+		} else {
+			e.setHeap(st, es, old, nw, heapUpd{elems: true})
+		}
 		return
 	}
 	s := sortOf(t)
-	st.cells[memCell(s, addr)] = fmt.Sprintf("(store %s %s %s)", e.heapAt(st, s, addr), addr, val)
+	if isLocalTerm(addr) {
+		st.cells[memCell(s, addr)] = fmt.Sprintf("(store %s %s %s)", e.heapAt(st, s, addr), addr, val)
+		return
+	}
+	old := e.heap(st, s)
+	e.setHeap(st, s, old, fmt.Sprintf("(store %s %s %s)", old, addr, val), e.updOfAddr(addr))
+}
+
+func (e *enc) updOfAddr(addr string) heapUpd {
+	if e.elemAddr[addr] {
+		return heapUpd{elems: true}
+	}
+	return updOfAddr(addr)
 }
 
 // ---- havoc ---------------------------------------------------------------------------------
@@ -539,7 +617,13 @@ func (e *enc) havoc(st *State, ms *ModSet, tag string) {
 		}
 		old := e.heap(st, s)
 		nw := e.fresh(cell+"_"+tag, "(Array Ref "+s+")")
-		st.cells[cell] = nw
+		{
+			u := heapUpd{whole: whole, elems: el, fields: map[int]bool{}}
+			for _, id := range ids {
+				u.fields[id] = true
+			}
+			e.setHeap(st, s, old, nw, u)
+		}
 		if whole {
 			e.assert(fmt.Sprintf("(forall ((r Ref)) (! (=> (protected r) (= (select %s r) (select %s r))) :pattern ((select %s r))))", nw, old, nw))
 			continue
@@ -567,6 +651,13 @@ func (e *enc) havoc(st *State, ms *ModSet, tag string) {
 	}
 	if ms.storeMut || ms.all {
 		e.havocStores(st, tag)
+	} else if ms.storeAdd {
+		// additive store effect: keys may be created (or rewritten), never removed
+		c, _ := e.storeCell("exists")
+		old := e.get(st, c, e.cellSortOf[c])
+		e.havocStores(st, tag)
+		nw := st.cells[c]
+		e.assert(fmt.Sprintf("(forall ((s Iface) (k Str)) (! (=> (select (select %s s) k) (select (select %s s) k)) :pattern ((select (select %s s) k))))", old, nw, nw))
 	}
 }
 
@@ -1146,6 +1237,39 @@ func (e *enc) loopHead(li *loopInfo, st *State) {
 	e.havocLocals(st, lm, tag)
 	if ms.sync {
 		e.havoc(st, e.volatile, tag+"v")
+	}
+	// ghost cells bound at call sites inside the loop
+	if e.c != nil {
+		for _, b := range sortedBlocks(li.blocks) {
+			for _, ins := range b.Instrs {
+				var cc *ssa.CallCommon
+				switch x := ins.(type) {
+				case *ssa.Call:
+					cc = &x.Call
+				case *ssa.Defer:
+					cc = &x.Call
+				}
+				if cc == nil {
+					continue
+				}
+				short := e.calleeShort(cc)
+				for site, clauses := range e.c.calls {
+					if !strings.HasPrefix(site, short+"#") {
+						continue
+					}
+					for _, cl := range clauses {
+						if cl.kind != "bind" {
+							continue
+						}
+						// (cells are known from the first encoding pass, see encodeFunc)
+						if gc, ok := e.ghostCells[cl.name]; ok {
+							st.cells[gc.cell] = e.fresh(gc.cell+"_"+tag, gc.sort)
+							st.cells[gc.cell+"_set"] = e.fresh(gc.cell+"_set_"+tag, "Bool")
+						}
+					}
+				}
+			}
+		}
 	}
 	li.hstate = st.clone()
 	if lc != nil {
